@@ -20,7 +20,7 @@ use std::rc::Rc;
 
 pub const ID: &str = "C10";
 
-pub const RULE: &str = "cases = (grammar, token sequence); each case is parsed (parse and check, Rich errors, every node wrapped in a span-recording map_with, try_map / validate / select closures recording their spans) through the &[char] baseline and through every other input kind the grammar can run on: &str, &[char; N] (N = 0..=6, 8), Stream over a counting iterator, Stream::boxed(), Stream::exact_size_boxed(), slice.map(eoi, ..) and Stream.map(eoi, ..) over (token, span) pairs with generated GAPPED spans, IterInput over such pairs (Input-only grammars: just / end / empty and combinators), IoInput over a Cursor<Vec<u8>> (ASCII cases; at offset 0 and handed over at a non-zero offset behind an already-read header), &str.with_context(ctx), slice.map_span(shift by 1000). Grammars: C01/C02/C08 classes (recovery incl. nested_delimiters, validate emitters, span captures), half of them over ASCII alphabets. Oracle: same has_output, same output value with every embedded span equal after the documented re-basing (byte offsets for text, the tokens' own spans for mapped inputs -- first.start..last.end, an empty match an empty span between its neighbours --, +1000 for map_span, the context attached for with_context), same number of errors, and for every error the same found / expected set / message / label contexts and the re-based span. Every Stream: the log shared by all clones of the iterator must read 0,1,2,.. (each item pulled at most once, in order, never more than the input holds) after parse and after check. Long family: 7 grammar shapes that backtrack from the far end to the start (choice of two long alternatives differing at the end, repetition then a failing tail, and_is over the whole input, rewind, recovery skipping to a late token, separated list, or_not prefix) with run lengths around 512, 1024 and (IoInput's BufReader) 8192. Graphemes: random strings over combining marks, ZWJ emoji sequences, regional indicators, CRLF, Hangul jamo, variation selectors: any().map_with(span).repeated().collect() over Graphemes::new(s), also behind a backtracking first alternative, must equal unicode_segmentation::graphemes(s, true) with byte-offset spans. NON-TRIVIAL = the reference backtracked over at least one consumed token on that input (the cursor moved backwards in the representation), or (long family) the backtrack crossed a 512-token batch boundary / the IoInput had to seek backwards, or (graphemes) the string has a multi-code-point cluster; distinct by (grammar, input).";
+pub const RULE: &str = "cases = (grammar, token sequence); each case is parsed (parse and check, Rich errors, every node wrapped in a span-recording map_with, try_map / validate / select closures recording their spans) through the &[char] baseline and through every other input kind the grammar can run on: &str, &[char; N] (N = 0..=6, 8), Stream over a counting iterator, Stream::boxed(), Stream::exact_size_boxed(), slice.map(eoi, ..) and Stream.map(eoi, ..) over (token, span) pairs with generated GAPPED spans, IterInput over such pairs (Input-only grammars: just / end / empty and combinators), IoInput over a Cursor<Vec<u8>> (ASCII cases; at offset 0 and handed over at a non-zero offset behind an already-read header), &str.with_context(ctx), slice.map_span(shift by 1000). Grammars: C01/C02/C08 classes (recovery incl. nested_delimiters, validate emitters, span captures), half of them over ASCII alphabets. Oracle: same has_output, same output value with every embedded span equal after the documented re-basing (byte offsets for text, the tokens' own spans for mapped inputs -- first.start..last.end, an empty match an empty span between its neighbours --, +1000 for map_span, the context attached for with_context), same number of errors, and for every error the same found / expected set / message / label contexts and the re-based span. Every Stream: the log shared by all clones of the iterator must read 0,1,2,.. (each item pulled at most once, in order, never more than the input holds) after parse and after check. Long family: 7 grammar shapes that backtrack from the far end to the start (choice of two long alternatives differing at the end, repetition then a failing tail, and_is over the whole input, rewind, recovery skipping to a late token, separated list, or_not prefix) with run lengths around 512, 1024 and (IoInput's BufReader) 8192. Graphemes: random strings over combining marks, ZWJ emoji sequences, regional indicators, CRLF, Hangul jamo, variation selectors: any().map_with(span).repeated().collect() over Graphemes::new(s), also behind a backtracking first alternative, must equal unicode_segmentation::graphemes(s, true) with byte-offset spans. A statically typed family runs slice captures, by-reference tokens (any_ref) and custom parsers using span_since / span_from / slice_since / slice_from / slice THROUGH with_context and map_span over &str and &[char] on every string over {a b e-acute G-clef} up to length 5 / 6: equal to the bare input after undoing the re-basing, slices being the caller's memory. NON-TRIVIAL = the reference backtracked over at least one consumed token on that input (the cursor moved backwards in the representation), or (long family) the backtrack crossed a 512-token batch boundary / the IoInput had to seek backwards, or (graphemes) the string has a multi-code-point cluster; distinct by (grammar, input).";
 
 pub const ASSUMPTIONS: &[&str] = &[
     "the &[char] baseline (tied to the reference PEG / error semantics by C01, C05, C06, C08)",
@@ -337,9 +337,162 @@ pub fn graphemes_case(sub: &str, s: &str, l: &mut Local) -> CaseRes {
 
 // ---------------------------------------------------------------------------------------------
 
+
+// ---------------------------------------------------------------------------------------------
+// wrapped inputs, statically typed: slices, by-reference tokens and the InputRef span / slice methods THROUGH
+// with_context / map_span / Input::map. The wrappers forward SliceInput, BorrowInput and ExactSizeInput to the wrapped
+// input; results must equal those on the bare input up to the documented re-basing of spans.
+
+trait SliceLike {
+    fn ptr_len(&self) -> (usize, usize);
+}
+impl SliceLike for &str {
+    fn ptr_len(&self) -> (usize, usize) {
+        (self.as_ptr() as usize, self.len())
+    }
+}
+impl<T> SliceLike for &[T] {
+    fn ptr_len(&self) -> (usize, usize) {
+        (self.as_ptr() as usize, self.len())
+    }
+}
+/// one observation: (what, span start, span end, slice address - buffer address, slice length)
+type WObs = (u8, usize, usize, usize, usize);
+
+fn wrap_family<'a, I>(base: usize, unspan: fn(I::Span) -> (usize, usize)) -> Vec<(&'static str, chumsky::Boxed<'a, 'a, I, Vec<WObs>, chumsky::extra::Err<chumsky::error::Cheap<I::Span>>>)>
+where
+    I: chumsky::input::ValueInput<'a, Token = char> + chumsky::input::SliceInput<'a> + chumsky::input::ExactSizeInput<'a> + 'a,
+    I::Slice: SliceLike + 'a,
+    I::Span: 'a,
+{
+    use chumsky::prelude::*;
+    type E<'a, I> = chumsky::extra::Err<chumsky::error::Cheap<<I as chumsky::input::Input<'a>>::Span>>;
+    let ob = move |k: u8, sp: I::Span, sl: I::Slice| -> WObs {
+        let (a, b) = unspan(sp);
+        let (p, n) = sl.ptr_len();
+        (k, a, b, p.wrapping_sub(base), n)
+    };
+    vec![
+        (
+            "any().then(any().or_not()).to_slice() per item",
+            any::<I, E<'a, I>>().then(any().or_not()).to_slice().map_with(move |sl: I::Slice, e| ob(1, e.span(), sl)).repeated().collect::<Vec<WObs>>().boxed(),
+        ),
+        (
+            "a-run.to_slice(), rest.to_slice(), map_with(e.slice()) around both",
+            just::<_, I, E<'a, I>>('a')
+                .repeated()
+                .to_slice()
+                .map_with(move |sl: I::Slice, e| ob(2, e.span(), sl))
+                .then(any().repeated().to_slice().map_with(move |sl: I::Slice, e| ob(3, e.span(), sl)))
+                .map_with(move |(x, y), e| vec![x, y, ob(4, e.span(), e.slice())])
+                .boxed(),
+        ),
+        (
+            "custom: next(), then slice_since / slice_from / span_since / span_from",
+            custom::<_, I, Vec<WObs>, E<'a, I>>(move |inp| {
+                let c0 = inp.cursor();
+                let _ = inp.next();
+                let c1 = inp.cursor();
+                let _ = inp.next();
+                let s01 = inp.span_since(&c0);
+                let s1e = inp.span_from(&c1..);
+                let s0e = inp.span_from(&c0..);
+                let a = inp.slice_since(&c0..);
+                let b = inp.slice_from(&c1..);
+                let c = inp.slice(&c0..&c1);
+                Ok(vec![ob(5, s01, a), ob(6, s1e, b), ob(7, s0e, c)])
+            })
+            .then_ignore(any().repeated())
+            .boxed(),
+        ),
+    ]
+}
+
+fn wrappers_case(s: &str, l: &mut Local) -> CaseRes {
+    use chumsky::input::Input as _;
+    use chumsky::Parser;
+    let toks: Vec<char> = s.chars().collect();
+    let case = |name: &str, kind: &str| {
+        let mut c = Case::new(ID, "wrappers-static", &G::Empty, &toks);
+        c.extra = serde_json::json!({ "parser": name, "kind": kind });
+        c
+    };
+    fn plain(sp: SimpleSpan) -> (usize, usize) {
+        (sp.start, sp.end)
+    }
+    fn ctxd(sp: CtxSpan) -> (usize, usize) {
+        assert_eq!(sp.context, CTX_TAG, "the span of a with_context input carries the context");
+        (sp.start, sp.end)
+    }
+    fn shifted(sp: Shifted) -> (usize, usize) {
+        (sp.0.wrapping_sub(SHIFT), sp.1.wrapping_sub(SHIFT))
+    }
+    fn shift_s(sp: SimpleSpan) -> Shifted {
+        Shifted(sp.start + SHIFT, sp.end + SHIFT)
+    }
+    macro_rules! runfam {
+        ($fam:expr, $mk:expr) => {{
+            let fam = $fam;
+            let mut outs = vec![];
+            for (name, p) in fam.iter() {
+                let r = quietly(|| (p.parse($mk).into_output(), p.check($mk).has_output()));
+                l.evals += 2;
+                outs.push((*name, r.ok()));
+            }
+            outs
+        }};
+    }
+    macro_rules! compare {
+        ($kind:expr, $base:expr, $got:expr) => {{
+            for ((name, b), (_, g)) in $base.iter().zip($got.iter()) {
+                if b != g || b.is_none() {
+                    return Err((case(name, $kind), Fail::new(&format!("C10/{}/wrapped-slices", $kind), format!("{} over {} on {:?}: (parse output, check accepts) = {:?}; on the bare input {:?} [observations: (site, span start, span end, slice offset in the caller's buffer, slice length), spans after undoing the documented re-basing]", name, $kind, s, g, b))));
+                }
+                l.bump("wrapped_input_comparisons");
+            }
+        }};
+    }
+    // text
+    let sp = s.as_ptr() as usize;
+    let b_str = runfam!(wrap_family::<&str>(sp, plain), s);
+    let g1 = runfam!(wrap_family::<WithCtxStr>(sp, ctxd), s.with_context::<CtxSpan>(CTX_TAG));
+    compare!("str.with_context", b_str, g1);
+    let g2 = runfam!(wrap_family::<chumsky::input::MappedSpan<Shifted, &str, fn(SimpleSpan) -> Shifted>>(sp, shifted), s.map_span(shift_s as fn(SimpleSpan) -> Shifted));
+    compare!("str.map_span", b_str, g2);
+    // slices of tokens
+    let sl: &[char] = &toks;
+    let bp = sl.as_ptr() as usize;
+    let b_sl = runfam!(wrap_family::<&[char]>(bp, plain), sl);
+    let g3 = runfam!(wrap_family::<chumsky::input::WithContext<CtxSpan, &[char]>>(bp, ctxd), sl.with_context::<CtxSpan>(CTX_TAG));
+    compare!("slice.with_context", b_sl, g3);
+    let g4 = runfam!(wrap_family::<MapSpanSlice>(bp, shifted), map_span_slice(sl));
+    compare!("slice.map_span", b_sl, g4);
+    // by-reference tokens through the wrappers
+    {
+        use chumsky::prelude::*;
+        type EW<'a> = chumsky::extra::Err<chumsky::error::Cheap<CtxSpan>>;
+        type EM<'a> = chumsky::extra::Err<chumsky::error::Cheap<Shifted>>;
+        type EP<'a> = chumsky::extra::Err<chumsky::error::Cheap<SimpleSpan>>;
+        let want: Vec<(char, usize, usize)> = toks.iter().enumerate().map(|(i, c)| (*c, i, i + 1)).collect();
+        let p0 = any_ref::<&[char], EP>().map_with(|t: &char, e| { let sp: SimpleSpan = e.span(); (*t, sp.start, sp.end) }).repeated().collect::<Vec<_>>();
+        let p1 = any_ref::<chumsky::input::WithContext<CtxSpan, &[char]>, EW>().map_with(|t: &char, e| { let sp = ctxd(e.span()); (*t, sp.0, sp.1) }).repeated().collect::<Vec<_>>();
+        let p2 = any_ref::<MapSpanSlice, EM>().map_with(|t: &char, e| { let sp = shifted(e.span()); (*t, sp.0, sp.1) }).repeated().collect::<Vec<_>>();
+        let r = quietly(|| (p0.parse(sl).into_output(), p1.parse(sl.with_context::<CtxSpan>(CTX_TAG)).into_output(), p2.parse(map_span_slice(sl)).into_output()));
+        l.evals += 3;
+        match r {
+            Ok((a, b, c)) if a.as_ref() == Some(&want) && b.as_ref() == Some(&want) && c.as_ref() == Some(&want) => l.bump("wrapped_input_comparisons"),
+            other => return Err((case("any_ref().map_with(span).repeated()", "slice wrappers"), Fail::new("C10/wrapped-borrow", format!("tokens by reference on {:?}: bare / with_context / map_span give {:?}, expected {:?} three times", s, other.ok(), want)))),
+        }
+    }
+    Ok(())
+}
+
 pub fn check_case(case: &Case, l: &mut Local) -> Result<(), Fail> {
     if case.sub.starts_with("graphemes") {
         return graphemes_case(&case.sub, &case.input, l).map_err(|(_, f)| f);
+    }
+    if case.sub == "wrappers-static" {
+        return wrappers_case(&case.input, l).map_err(|(_, f)| f);
     }
     let seed = case.extra.get("gap_seed").and_then(|p| p.as_u64()).unwrap_or(1);
     check_inner(&case.sub, &case.g, &case.toks(), seed, l).map_err(|(_, f)| f)
@@ -415,6 +568,17 @@ fn long_input(k: usize, shape: usize) -> Vec<char> {
 pub fn run(tier: Tier, seed: u64) -> i32 {
     let ctx = Ctx::new(ID, tier, seed);
     ctx.replay_corpus(&check_case);
+    // wrapped inputs (slices, by-reference tokens, span_from / slice_from through with_context / map_span): every short string
+    {
+        let wstrings: Vec<String> = all_strings(&['a', 'b', 'é', '𝄞'], ctx.pick(5, 6)).into_iter().map(|v| v.into_iter().collect()).collect();
+        let wchunks: Vec<&[String]> = wstrings.chunks(64).collect();
+        ctx.par_jobs(&wchunks, |ch, l| {
+            for s in ch.iter() {
+                wrappers_case(s, l)?;
+            }
+            Ok(())
+        });
+    }
     // exhaustive small tier: small grammars x all strings
     let strings = all_strings(&['a', 'b', 'c'], ctx.pick(4, 5));
     let smalls: Vec<G> = small_grammars(true).into_iter().step_by(ctx.pick(7, 2)).collect();
